@@ -514,3 +514,27 @@ Theorem C20_source_unconditional_default_refuted :
     /\ cls_eff (k_render_method 2) par (fst (step (k_render_method 2) par s (op_of_cls 1 MNone))) 1 = 1%Z.
 Proof. exact cls_unconditional_default_refuted_lemma. Qed.
 Print Assumptions C20_source_unconditional_default_refuted.
+
+(** the iterm2 properties [jpeg_quality] and [read_from_file]: one setter / deleter serves the
+    class and the instance level; running the translated bodies IS the model's step, for
+    every state, object and argument (a non-int, an int, a bool — [isinstance(True, int)]),
+    and the getter's default is the model's *)
+Theorem C20_source_jpeg_quality :
+  forall (par : nat -> nat) (s : state) (x : nat) (a : parg),
+    pcls_run jcode s x a src_jpeg_quality_set = step k_jpeg_quality par s (ClsSet x (jcode a))
+    /\ pinst_run jcode s x a src_jpeg_quality_set = step k_jpeg_quality par s (InstSet x (jcode a))
+    /\ pcls_run jcode s x a src_jpeg_quality_del = step k_jpeg_quality par s (ClsUnset x)
+    /\ pinst_run jcode s x a src_jpeg_quality_del = step k_jpeg_quality par s (InstUnset x)
+    /\ k_default k_jpeg_quality = src_jpeg_quality_default.
+Proof. exact jpeg_quality_is_step_lemma. Qed.
+Print Assumptions C20_source_jpeg_quality.
+
+Theorem C20_source_read_from_file :
+  forall (par : nat -> nat) (s : state) (x : nat) (a : parg),
+    pcls_run rcode s x a src_read_from_file_set = step k_read_from_file par s (ClsSet x (rcode a))
+    /\ pinst_run rcode s x a src_read_from_file_set = step k_read_from_file par s (InstSet x (rcode a))
+    /\ pcls_run rcode s x a src_read_from_file_del = step k_read_from_file par s (ClsUnset x)
+    /\ pinst_run rcode s x a src_read_from_file_del = step k_read_from_file par s (InstUnset x)
+    /\ k_default k_read_from_file = (if src_read_from_file_default then 1 else 0)%Z.
+Proof. exact read_from_file_is_step_lemma. Qed.
+Print Assumptions C20_source_read_from_file.
